@@ -115,7 +115,7 @@ CLAIMED = {
  'C09': dict(level='proof', design='6.C09',
    text='Loop contract of extract_message over the signature: the slot index equals the number of type codes seen so far (version digits and ? skipped), one argument per type code, arrays have size/4 integer elements read in order, name / direction / target as held by the closure - discharged obligations. That argument t is built from union member <code> of slot t with the right kind, value and declared interface is a native-only clause: evaluated on the real function over generated closures (bounded stand-in, not proved; its invariant did not discharge within the solver budget). '
         'The check found a genuine defect (arguments after a non-empty array were read from the wrong slot), repaired in /repo.',
-   note='gdb.Value is an assumed API (opaque spec functions; natively a Python stand-in, not real gdb); _fast_access assumed; the fixed-point expression is assumed to be evaluated by gdb as wl_fixed_to_double; null strings: no obligation (log mode decodes nil, GDB mode shows a placeholder - DESIGN F7 recorded, not repaired); received_message / sent_message frame handling not under contract.',
+   note='gdb.Value is an assumed API (opaque spec functions; natively a Python stand-in, not real gdb); _fast_access assumed; the fixed-point expression is assumed to be evaluated by gdb as wl_fixed_to_double; null strings: no obligation (log mode decodes nil, GDB mode shows a placeholder - DESIGN F7 recorded, not repaired); received_message / sent_message (reading closure, target and connection out of the stack frames of libwayland) are bounded contracts over stand-in frames.',
    technique='contract-based deductive verification (loop invariant with a counting spec function); native replay on a stand-in for gdb.Value'),
 }
 
